@@ -18,6 +18,9 @@ const (
 
 func (k Kind) String() string { return [...]string{"local", "named", "remote", "both"}[k] }
 
+// MarshalText makes kinds readable in evidence and replay files.
+func (k Kind) MarshalText() ([]byte, error) { return []byte(k.String()), nil }
+
 func (k Kind) local() bool { return k != KRemote }
 
 func modName(i int) string { return fmt.Sprintf("buf.test/acme/m%d", i) }
